@@ -71,9 +71,8 @@ Definition alps_cp (cp : N) : Prop := cp = ext_alps_old \/ cp = ext_alps_new.
 Lemma cee_marshal_ok cp settings :
   blen settings + 4 < 65536 -> cee_marshal cp settings [] = Ok (typeEncryptedExtensions :: enc_u24lp (enc_u16lp (cee_exts cp settings []))).
 Proof.
-  intros H. unfold cee_marshal. cbn [blen length].
-  destruct (N.leb_spec 65536 (blen settings)) as [H1|H1]; [lia|].
-  change (N.of_nat 0) with 0. destruct (N.leb_spec 65536 0) as [H2|_]; [lia|]. cbn [orb].
+  intros H. unfold cee_marshal. rewrite blen_nil. change (65536 <=? 0) with false.
+  destruct (N.leb_spec 65536 (blen settings)) as [H1|H1]; [lia|]. cbn [orb].
   assert (L : blen (cee_exts cp settings []) < 65536).
   { unfold cee_exts. cbn [is_empty]. rewrite app_nil_r. destruct (cp =? 0).
     - rewrite blen_nil. lia.
@@ -85,9 +84,8 @@ Theorem cee_roundtrip cp settings msg :
   cp = 0 \/ alps_cp cp -> cee_marshal cp settings [] = Ok msg ->
   cee_unmarshal msg = Ok (Some {| ee_codepoint := cp; ee_settings := if cp =? 0 then [] else settings |}).
 Proof.
-  intros Hcp. unfold cee_marshal. cbn [blen length]. change (N.of_nat 0) with 0.
-  destruct (N.leb_spec 65536 (blen settings)) as [H1|H1]; [discriminate|].
-  destruct (N.leb_spec 65536 0) as [H2|_]; [lia|]. cbn [orb].
+  intros Hcp. unfold cee_marshal. rewrite blen_nil. change (65536 <=? 0) with false.
+  destruct (N.leb_spec 65536 (blen settings)) as [H1|H1]; cbn [orb]; [discriminate|].
   destruct (N.leb_spec 65536 (blen (cee_exts cp settings []))) as [H3|H3]; [discriminate|].
   intros E. injection E as <-.
   unfold cee_unmarshal, enc_u24lp. rewrite cb_skip4_hdr. cbn [bind].
@@ -110,9 +108,8 @@ Qed.
 Lemma cee_custom_not_roundtrip custom msg :
   custom <> [] -> cee_marshal 0 [] custom = Ok msg -> cee_unmarshal msg = Ok None.
 Proof.
-  intros Hne. unfold cee_marshal. cbn [blen length]. change (N.of_nat 0) with 0.
-  destruct (N.leb_spec 65536 0) as [H2|_]; [lia|].
-  destruct (N.leb_spec 65536 (N.of_nat (length custom))) as [H1|H1]; [discriminate|]. cbn [orb].
+  intros Hne. unfold cee_marshal. rewrite blen_nil. change (65536 <=? 0) with false.
+  destruct (N.leb_spec 65536 (blen custom)) as [H1|H1]; cbn [orb]; [discriminate|].
   destruct (N.leb_spec 65536 (blen (cee_exts 0 [] custom))) as [H3|H3]; [discriminate|].
   intros E. injection E as <-.
   unfold cee_unmarshal, enc_u24lp. rewrite cb_skip4_hdr. cbn [bind].
@@ -191,7 +188,7 @@ Proof.
   induction 1 as [|[id d] exts Hid _ IH]; intros m m' E; cbn [ee_fold fst] in *.
   - injection E as <-. split; reflexivity.
   - destruct (ee_handle id d m) as [[m1|]| |] eqn:Eh; cbn [bind] in E; try discriminate.
-    destruct (ee_handle_other _ _ _ _ Hid Eh) as [-> ->]. apply IH. exact E.
+    destruct (ee_handle_other _ _ _ _ Hid Eh) as [H1 H2]. destruct (IH _ _ E) as [H3 H4]. split; congruence.
 Qed.
 
 Lemma ee_fold_app a b m : ee_fold (a ++ b) m =
@@ -361,3 +358,50 @@ Lemma f22_witness :
   exists st, read_server_parameters false f22_client f22_ee = Ok st /\
     lookup (ee_alpn f22_ee) (cl_settings f22_client) = Some [1; 2; 3] /\ st_local st = [].
 Proof. eexists. split; [vm_compute; reflexivity|]. split; reflexivity. Qed.
+
+(* ---------- alps_local end to end (fixed code): bytes of the server's EncryptedExtensions in, the server's decoded view out ---------- *)
+Theorem alps_local_end_to_end (fin : bytes -> bytes) c data m st v tr certs :
+  ee_unmarshal data = Ok (Some m) -> read_server_parameters true c m = Ok st -> ee_cp m <> 0 ->
+  lookup (ee_alpn m) (cl_settings c) = Some v -> blen v + 4 < 65536 ->
+  exists msg, send_client_ee st = Ok [msg] /\
+    client_flight fin tr st certs =
+      Ok ([msg] ++ certs ++ [finished_msg fin (tr ++ concat [msg] ++ concat certs)], tr ++ concat [msg] ++ concat certs) /\
+    server_finish fin tr true (length certs) ([msg] ++ certs ++ [finished_msg fin (tr ++ concat [msg] ++ concat certs)])
+      = Some (Some (ee_cp m, v)).
+Proof.
+  intros Eu Er Hcp Hl Hv.
+  destruct (alps_local_fixed c m st v Er Hcp Hl) as (Hloc & Hc & _).
+  pose proof (ee_unmarshal_cp data m Eu) as Hd. destruct Hd as [H0|Hd]; [contradiction|].
+  rewrite <- Hc in Hd. rewrite <- Hloc in Hv.
+  destruct (send_client_ee_decodes st Hd Hv) as (msg & Es & _ & _).
+  destruct (client_flight_accepted fin tr st certs (or_intror Hd) Hv) as (ee & Es' & Ef & Ea).
+  rewrite Es in Es'. injection Es' as <-. exists msg. split; [exact Es|]. split; [exact Ef|].
+  assert (Hne : (st_cp st =? 0) = false) by (destruct Hd as [-> | ->]; reflexivity).
+  rewrite Hne in Ea. cbn [negb] in Ea. rewrite Ea, Hc, Hloc. reflexivity.
+Qed.
+
+(* when nothing is configured for the negotiated protocol the client still answers, with empty settings *)
+Lemma alps_local_unconfigured c m st :
+  read_server_parameters true c m = Ok st -> ee_cp m <> 0 -> lookup (ee_alpn m) (cl_settings c) = None -> st_local st = [] /\ st_cp st = ee_cp m.
+Proof.
+  unfold read_server_parameters, utls_read_server_parameters. intros E Hcp Hl.
+  destruct (Negotiate.check_alpn (cl_offered c) (ee_alpn m)); cbn [negb] in E; [|discriminate].
+  destruct (N.eqb_spec (ee_cp m) 0) as [E0|_]; [contradiction|]. cbn [negb] in E.
+  destruct (cl_vers c <? V13); [discriminate|]. destruct (is_empty (ee_alpn m)); [discriminate|].
+  rewrite Hl in E. cbn [bind] in E. destruct (ee_quic m); [discriminate|]. destruct (ee_early m); [discriminate|].
+  injection E as <-. auto.
+Qed.
+
+(* without ALPS from the server nothing is stored and nothing is sent *)
+Lemma no_alps_no_answer fixed c m st : read_server_parameters fixed c m = Ok st -> ee_cp m = 0 -> st_cp st = 0 /\ send_client_ee st = Ok [].
+Proof.
+  unfold read_server_parameters, utls_read_server_parameters. intros E H0. rewrite H0 in E. cbn [N.eqb negb bind] in E.
+  destruct (Negotiate.check_alpn (cl_offered c) (ee_alpn m)); cbn [negb] in E; [|discriminate].
+  destruct (ee_quic m); [discriminate|]. destruct (ee_early m); [discriminate|]. injection E as <-. split; reflexivity.
+Qed.
+
+(* bytes-level alps_reject *)
+Theorem client_read_ee_reject fixed c data m :
+  ee_unmarshal data = Ok (Some m) -> ee_cp m <> 0 -> cl_vers c < V13 \/ ee_alpn m = [] ->
+  client_read_ee fixed c data = Err a_unsupported_extension \/ client_read_ee fixed c data = Err a_no_application_protocol.
+Proof. intros Eu Hcp H. unfold client_read_ee. rewrite Eu. cbn [bind]. now apply rsp_reject. Qed.
